@@ -390,7 +390,14 @@ func runC02Workflow(ctx *vh.Ctx) error {
 	n := ctx.N(3000, 30000)
 	limit := time.Duration(ctx.N(11, 40)) * time.Second
 	start := time.Now()
+	penalised := false
 	for i := 0; i < n && time.Since(start) < limit; i++ {
+		if c02wfScriptBroken && !penalised {
+			// one classification timeout was spent on a script that could not be followed
+			// (a disagreement already): do not let it eat the family's budget
+			penalised = true
+			limit += 16 * time.Second
+		}
 		o := gcase.WGenOpts{MaxNodes: 7, FailPct: 4, BranchPct: 30, Natives: false}
 		if ctx.Thorough() {
 			o.MaxNodes = 11
